@@ -641,6 +641,21 @@ func genSmall(emit func(string), r *hx.Rand, thorough bool) {
 		emit(hx.L("depth-dec", hx.S(s)))
 		emit(hx.L("ow-dec", hx.S(s)))
 	}
+	// every ASCII-case spelling of the literals (the decoder may read or refuse them, not read anything else)
+	for m := 0; m < 256; m++ {
+		b := []byte("infinity")
+		for i := range b {
+			if m&(1<<i) != 0 {
+				b[i] -= 32
+			}
+		}
+		emit(hx.L("depth-dec", hx.S(string(b))))
+		emit(hx.L("ow-dec", hx.S(string(b))))
+	}
+	for _, s := range []string{"t", "f", "T", "F", "\xd4", "\x54\x00", "\u0131nfinity", "\u0130nfinity", "infin\u0131ty", "\u017f", "\u212a"} {
+		emit(hx.L("depth-dec", hx.S(s)))
+		emit(hx.L("ow-dec", hx.S(s)))
+	}
 	// Overwrite
 	emit(hx.L("ow-rt", "0"))
 	emit(hx.L("ow-rt", "1"))
